@@ -51,18 +51,30 @@ func TestC05NonceStore(t *testing.T) {
 			fail := func(f string, a ...interface{}) {
 				rt.Fatalf("%s\ndriver=%s\nhistory:\n  %s", fmt.Sprintf(f, a...), driver, strings.Join(hist, "\n  "))
 			}
+			burstSeq := 0
 			n := rapid.IntRange(4, 30).Draw(rt, "steps")
 			for i := 0; i < n; i++ {
 				switch op := rapid.SampledFrom([]string{"submit", "submit", "submit", "submit", "advance", "advance", "reopen", "race", "burst"}).Draw(rt, "op"); op {
 				case "burst":
 					// a busy pool: many accepted requests of OTHER identities must not make the store forget anybody's nonce
-					k := rapid.SampledFrom([]int{10, 70, 130}).Draw(rt, "burst")
+					k := rapid.SampledFrom([]int{10, 70, 130, 300, 700}).Draw(rt, "burst")
 					if driver == "badgerdisk" && k > 70 {
 						k = 70
 					}
+					// by a handful of identities, or by as many identities as requests (a store that tidies up when it
+					// holds many identities must not lose anybody's record); some of them with clocks far ahead
+					manyIDs := rapid.Bool().Draw(rt, "burstManyIdentities")
+					ahead := int64(rapid.SampledFrom([]time.Duration{0, 0, 20 * time.Minute, 2 * time.Hour}).Draw(rt, "burstClockAhead"))
+					burstSeq++
 					for j := 0; j < k; j++ {
 						id := fmt.Sprintf("noise%d", j%7)
+						if manyIDs {
+							id = fmt.Sprintf("noise-%d-%d", burstSeq, j)
+						}
 						nonce := time.Now().UnixNano() + int64(j)
+						if j%3 == 2 {
+							nonce += ahead
+						}
 						verdict := model.NonceVerdict(id, nonce)
 						err := st.CheckAndSaveNonce(id, nonce)
 						if (err == nil) != (verdict == "accept") && verdict != "either" {
@@ -72,7 +84,7 @@ func TestC05NonceStore(t *testing.T) {
 							model.CommitNonce(id, nonce)
 						}
 					}
-					hist = append(hist, fmt.Sprintf("burst of %d accepted nonces by 7 other identities", k))
+					hist = append(hist, fmt.Sprintf("burst of %d accepted nonces by other identities (one identity per request: %v, every third clock ahead by %s)", k, manyIDs, time.Duration(ahead)))
 					sigParts = append(sigParts, fmt.Sprintf("burst%d", k))
 				case "submit":
 					id := rapid.SampledFrom([]string{"a", "b", "c"}).Draw(rt, "id")
